@@ -513,6 +513,21 @@ class Engine:
                 return self.apply_contract(k, [v], {}, n, st)
         raise OutOfSubset(n, "unary op")
 
+    @staticmethod
+    def _none_test(test):
+        """`x is None` -> (x, True) ; `x is not None` -> (x, False) ; otherwise None"""
+        if (isinstance(test, ast.Compare) and len(test.ops) == 1 and isinstance(test.left, ast.Name) and isinstance(test.comparators[0], ast.Constant)
+                and test.comparators[0].value is None and isinstance(test.ops[0], (ast.Is, ast.IsNot))):
+            return test.left.id, isinstance(test.ops[0], ast.Is)
+        return None
+
+    def _narrowed(self, st, name):
+        """the value of optional local `name` on a branch where it is known not to be None"""
+        v = st.env.get(name)
+        if isinstance(v, V) and isinstance(v.ty, TOpt):
+            return V(v.ty.t, v.ty.sort().v(v.t))
+        return None
+
     def ev_IfExp(self, n, st):
         c = self.ev_test(n.test, st)
         c = z3.simplify(c)
@@ -521,16 +536,23 @@ class Engine:
         if z3.is_false(c):
             return self.ev(n.orelse, st)
         saved = len(st.guards)
-        st.guards.append(c)
-        try:
-            a = self.ev(n.body, st)
-        finally:
-            del st.guards[saved:]
-        st.guards.append(z3.Not(c))
-        try:
-            b = self.ev(n.orelse, st)
-        finally:
-            del st.guards[saved:]
+        nt = self._none_test(n.test)
+        narrowed = self._narrowed(st, nt[0]) if nt else None
+
+        def branch_value(node, guard, narrow_here):
+            st.guards.append(guard)
+            old = st.env.get(nt[0]) if (narrow_here and narrowed is not None) else None
+            if old is not None:
+                st.env[nt[0]] = narrowed          # `x if x is not None else d`: x is not None on this branch
+            try:
+                return self.ev(node, st)
+            finally:
+                del st.guards[saved:]
+                if old is not None:
+                    st.env[nt[0]] = old
+
+        a = branch_value(n.body, c, bool(nt) and not nt[1])
+        b = branch_value(n.orelse, z3.Not(c), bool(nt) and nt[1])
         if isinstance(a, V) and isinstance(b, V) and a.ty == b.ty and a.ty is not TNone:
             return V(a.ty, z3.If(c, a.t, b.t))
         if isinstance(a, V) and isinstance(b, V) and isinstance(a.ty, TOpt) and a.ty.t == b.ty:
@@ -662,6 +684,8 @@ class Engine:
             return z3.BoolVal(self.static_key(x, n) in cont[1].attrs)
         if isinstance(cont, MObj) and cont.cls == "StrKeyDict":
             return z3.BoolVal(self.static_key(x, n) in cont.attrs)
+        if isinstance(cont, tuple) and cont and isinstance(cont[0], str) and cont[0] in ("emptydict", "emptylist", "emptyset"):
+            return z3.BoolVal(False)
         if isinstance(cont, tuple):
             return z3.Or(*[self.equal(x, y, n, st) for y in cont]) if cont else z3.BoolVal(False)
         if isinstance(cont, MObj):
@@ -841,7 +865,10 @@ class Engine:
     def ev_Dict(self, n, st):
         if not n.keys:
             return ("emptydict",)
-        raise OutOfSubset(n, "non-empty dict display")
+        if all(isinstance(k, ast.Constant) and isinstance(k.value, str) for k in n.keys):
+            # a display with literal string keys: a dict with statically known keys (values of any type)
+            return MObj("StrKeyDict", {k.value: self.ev(v, st) for k, v in zip(n.keys, n.values)})
+        raise OutOfSubset(n, "non-empty dict display with computed keys")
 
     def keyed_for(self, ty):
         for ks in self.c.keyed.values():
@@ -1689,6 +1716,8 @@ class Engine:
             return False
         if isinstance(cur, tuple) and len(cur) == 2 and cur[0] == "dictview":
             return False        # obj.__dict__.pop(...): handled as an ordinary (native) call
+        if isinstance(cur, V) and isinstance(cur.ty, TOpt) and isinstance(cur.ty.t, TObj) and not isinstance(cur.ty.t, TRec):
+            return False        # optional opaque object: an ordinary method call (the attribute access obliges "is not None")
         args = [self.ev(a, st) for a in call.args]
         new = lib.mutate(self, cur, meth, args, call, st)
         self.assign(tgt, new, st, call)
@@ -1696,7 +1725,15 @@ class Engine:
 
     def assign(self, tgt, val, st, node):
         if isinstance(tgt, ast.Name):
-            if isinstance(val, tuple) and val and val[0] in ("emptylist", "emptydict", "emptyset") and tgt.id in self.c.local_types:
+            if (isinstance(val, tuple) and val and val[0] in ("emptylist", "emptydict", "emptyset") and tgt.id in self.c.local_types
+                    and isinstance(self.c.local_types[tgt.id], TObj) and not isinstance(self.c.local_types[tgt.id], TRec)):
+                # a new empty container assigned to a local that the contract models as an opaque reference: a fresh object
+                ty = self.c.local_types[tgt.id]
+                val = self.fresh(st, ty, tgt.id + "_new")
+                hook = self.reg.lookup_method(ty.name, "__fresh_empty__")
+                if hook is not None:
+                    hook(self, val, st)
+            elif isinstance(val, tuple) and val and val[0] in ("emptylist", "emptydict", "emptyset") and tgt.id in self.c.local_types:
                 val = self.empty_of(self.c.local_types[tgt.id])
             elif tgt.id in self.c.local_types and isinstance(val, V):
                 try:
@@ -1768,6 +1805,14 @@ class Engine:
             k = self.reg.lookup_method(base.cls, "__setitem__")
             if k is not None:
                 self.apply_contract(k, [base, idx, val], {}, node, st)
+                return base
+        if isinstance(base, V) and isinstance(base.ty, TObj) and not isinstance(base.ty, TRec):
+            k = self.reg.lookup_method(base.ty.name, "__setitem__")
+            if k is not None:
+                if hasattr(k, "bind_args"):
+                    self.apply_contract(k, [base, idx, val], {}, node, st)
+                else:
+                    k(self, [base, idx, val], {}, node, st)
                 return base
         if isinstance(base, V):
             ty = base.ty
